@@ -8,6 +8,18 @@ from sklearn.compose import ColumnTransformer, TransformedTargetRegressor
 from ..helpers.pipeline import enumerate_pipeline_models
 
 
+def _record_field(name):
+    """
+    Escapes the characters which delimit the fields and the ports of
+    a record or end the label (``|``, ``<``, ``>``, ``{``, ``}``,
+    ``"``, ``\\``) in a column name displayed in a record.
+    """
+    res = str(name)
+    for c in '\\|<>{}"':
+        res = res.replace(c, "\\" + c)
+    return res
+
+
 def _pipeline_info(pipe, data, context, former_data=None):
     """
     Internal function to convert a pipeline into
@@ -273,7 +285,7 @@ def pipeline2dot(pipe, data, **params):
             labs = []
             for c, col in enumerate(schema):
                 columns[col] = f"sch0:f{c}"
-                labs.append(f"<f{c}> {col}")
+                labs.append(f"<f{c}> {_record_field(col)}")
             node = '  sch0[label="{0}",shape=record,fontsize={1}];'.format(
                 "|".join(labs), params.get("fontsize", fontsize)
             )
@@ -309,7 +321,7 @@ def pipeline2dot(pipe, data, **params):
             labs = []
             for c, out in enumerate(line["outputs"]):
                 columns[out] = f"sch{i}:f{c}"
-                labs.append(f"<f{c}> {out}")
+                labs.append(f"<f{c}> {_record_field(out)}")
             node = '  sch{0}[label="{1}",shape=record,fontsize={2}];'.format(
                 i, "|".join(labs), params.get("fontsize", fontsize)
             )
